@@ -237,7 +237,9 @@ func (u *Unit) enterLoopHead(st *State, fr *Frame, head *ssa.BasicBlock, li *loo
 			env := u.loopEnv(st, fr, head)
 			env.atHead = ls.atHead
 			for i, c := range lspec.Steps {
+				u.goalEval = true
 				t, err := u.evalBool(st, env, c.Expr)
+				u.goalEval = false
 				if err != nil {
 					u.fail(fmt.Sprintf("%s: loop %d step %q: %v", c.Where, ord, c.Src, err))
 					continue
